@@ -33,7 +33,7 @@ func fgnProject(b []byte) map[string]interface{} {
 	toks := []string{}
 	obs := map[string]interface{}{"zip": "ok", "body": "ok"}
 	finish := func() map[string]interface{} {
-		obs["parts"], obs["rels"], obs["toks"] = parts, rels, toks
+		obs["parts"], obs["rels"], obs["toks"], obs["mem"] = parts, rels, toks, []string{}
 		return obs
 	}
 	if b == nil {
@@ -84,6 +84,48 @@ func fgnProject(b []byte) map[string]interface{} {
 		toks = append(toks, fgnTokRe.FindAllString(body.WText(), -1)...)
 	}
 	return finish()
+}
+
+// fgnMemToks projects the document in memory: the tokens carried by the text of runs of body
+// paragraphs and of table cells at any depth (the library's own model, read through its fields).
+func fgnMemToks(d *document.Document) []string {
+	toks := []string{}
+	if d == nil || d.Body == nil {
+		return toks
+	}
+	var para func(p *document.Paragraph)
+	var table func(t *document.Table)
+	para = func(p *document.Paragraph) {
+		for i := range p.Runs {
+			toks = append(toks, fgnTokRe.FindAllString(p.Runs[i].Text.Content, -1)...)
+		}
+	}
+	table = func(t *document.Table) {
+		for ri := range t.Rows {
+			for ci := range t.Rows[ri].Cells {
+				c := &t.Rows[ri].Cells[ci]
+				for pi := range c.Paragraphs {
+					para(&c.Paragraphs[pi])
+				}
+				for ti := range c.Tables {
+					table(&c.Tables[ti])
+				}
+			}
+		}
+	}
+	for _, e := range d.Body.Elements {
+		switch x := e.(type) {
+		case *document.Paragraph:
+			para(x)
+		case document.Paragraph:
+			para(&x)
+		case *document.Table:
+			table(x)
+		case document.Table:
+			table(&x)
+		}
+	}
+	return toks
 }
 
 type fgnCtx struct {
@@ -185,7 +227,7 @@ func (c *fgnCtx) edit(op Op, i int) string {
 
 // fgnReplay opens the foreign bytes afresh, applies steps[1..upto] and saves.
 // It returns the return value of the last step, how far the pipeline got, and the saved bytes.
-func fgnReplay(foreign []byte, steps []Op, upto int, viaFile bool, tmp string) (ret, pmsg, sv string, out []byte, np int) {
+func fgnReplay(foreign []byte, steps []Op, upto int, viaFile bool, tmp string) (ret, pmsg, sv string, out []byte, np int, mem []string) {
 	document.VerifResetGlobals()
 	c := &fgnCtx{tmp: tmp}
 	sv = "ok"
@@ -198,12 +240,12 @@ func fgnReplay(foreign []byte, steps []Op, upto int, viaFile bool, tmp string) (
 		return "ok"
 	})
 	if ret != "ok" {
-		return ret, pmsg, "open-" + ret, nil, 0
+		return ret, pmsg, "open-" + ret, nil, 0, nil
 	}
 	for i := 1; i <= upto; i++ {
 		ret, pmsg = guard(func() string { return c.edit(steps[i], i) })
 		if ret == "panic" {
-			return ret, pmsg, "edit-panic", nil, 0
+			return ret, pmsg, "edit-panic", nil, 0, nil
 		}
 		if ret == "unknown-op" {
 			fmt.Fprintln(os.Stderr, "foreign: unknown op", steps[i].Name())
@@ -235,12 +277,16 @@ func fgnReplay(foreign []byte, steps []Op, upto int, viaFile bool, tmp string) (
 		if pmsg == "" {
 			pmsg = spmsg
 		}
-		return ret, pmsg, "save-" + sret, nil, 0
+		return ret, pmsg, "save-" + sret, nil, 0, nil
 	}
 	if c.doc != nil && c.doc.Body != nil {
 		np = len(c.doc.Body.GetParagraphs())
 	}
-	return ret, pmsg, "ok", out, np
+	mret, _ := guard(func() string { mem = fgnMemToks(c.doc); return "ok" })
+	if mret != "ok" {
+		mem = []string{}
+	}
+	return ret, pmsg, "ok", out, np, mem
 }
 
 func runForeign(c Case, emit Emitter) {
@@ -272,14 +318,18 @@ func runForeign(c Case, emit Emitter) {
 	empty := fgnProject(nil)
 	viaFile := c.ID%2 == 0
 	for i, op := range c.Steps {
-		ret, pmsg, sv, out, np := fgnReplay(foreign, c.Steps, i, viaFile, tmp)
+		ret, pmsg, sv, out, np, mem := fgnReplay(foreign, c.Steps, i, viaFile, tmp)
 		ev := Ev{"ev": "step", "case": c.ID, "i": i, "op": op, "ret": ret, "pmsg": pmsg, "sv": sv, "np": np}
 		if i == 0 {
 			ev["orig"] = orig
 		} else {
 			ev["orig"] = empty
 		}
-		ev["pkg"] = fgnProject(out)
+		pkg := fgnProject(out)
+		if mem != nil {
+			pkg["mem"] = mem
+		}
+		ev["pkg"] = pkg
 		if dir := os.Getenv("WZ_FGN_DUMP"); dir != "" && out != nil {
 			os.WriteFile(filepath.Join(dir, fmt.Sprintf("case%d.step%d.docx", c.ID, i)), out, 0o644)
 		}
